@@ -13,6 +13,8 @@ flush loop (`for i in range(50):` of SessionCache.flush), in source order, desce
   prepareFlushTests  tests of the `if ..: cache.flush()` statements of prepare_connection_for_query_execution
 `Props/C10.lean` (part 5, C10_bridge_query_flushes_first) states that every ORM statement is prepared before it is executed and that the
 preparation flushes exactly when `not cache.noflush_counter and cache.modified` - what `runQuery` of the session model assumes.
+  cacheVerify        body of the final `for attr, val in avdict.items():` loop of EntityMeta._find_in_cache_ (the object the cache found
+                     is checked against EVERY criterion of the lookup, None included) - Props/C10.lean C10_bridge_cache_lookup_verifies_all_criteria
 `Props/C10.lean` (part 4) proves over `flushEvents` that no entry computed before a write survives the flush; a change of the
 order in the source changes the generated list and breaks those theorems on the next run (fail closed: if the loop or the clear
 is not found the list lacks the event and the theorems fail as well).
@@ -91,7 +93,20 @@ def analyse(repo):
         if isinstance(st, ast.Return): returned = True
         if isinstance(st, ast.If) and not returned and [ast.unparse(x) for x in st.body] == ['cache.flush()'] and not st.orelse:
             flush_tests.append(ast.unparse(st.test))
-    return {'flushEvents': out, 'outsideLoop': outside, 'queryPath': path, 'prepareFlushTests': flush_tests}
+    # ---- EntityMeta._find_in_cache_: the final verification of the object the cache found against ALL criteria of the lookup:
+    #      the statements of the last `for attr, val in avdict.items():` loop inside `if obj is not None:`
+    fic = None
+    for node in tree.body:
+        if isinstance(node, ast.ClassDef) and node.name == 'EntityMeta':
+            for f in node.body:
+                if isinstance(f, ast.FunctionDef) and f.name == '_find_in_cache_': fic = f
+    if fic is None: raise LookupError('EntityMeta._find_in_cache_ not found')
+    verify = []
+    for n in ast.walk(fic):
+        if isinstance(n, ast.If) and ast.unparse(n.test) == 'obj is not None':
+            loops2 = [st for st in n.body if isinstance(st, ast.For) and ast.unparse(st.iter) == 'avdict.items()']
+            if loops2: verify = [ast.unparse(st).replace('\n', ' ; ') for st in loops2[-1].body]
+    return {'flushEvents': out, 'outsideLoop': outside, 'queryPath': path, 'prepareFlushTests': flush_tests, 'cacheVerify': verify}
 
 
 def render(f):
@@ -107,8 +122,11 @@ def render(f):
             'def queryPath : List QueryEv := %s\n'
             '/-- tests of the top-level `if ..: cache.flush()` statements of prepare_connection_for_query_execution (before its return) -/\n'
             'def prepareFlushTests : List String := [%s]\n'
+            '/-- EntityMeta._find_in_cache_: body of the loop that checks the object found in the cache against every criterion of the lookup -/\n'
+            'def cacheVerify : List String := [%s]\n'
             'end PonyVerif.Gen.FlushQueryCache\n') % (lst(f['flushEvents']), lst(f['outsideLoop']), lst(f['queryPath']),
-                                                     ', '.join(json.dumps(t) for t in f['prepareFlushTests']))
+                                                     ', '.join(json.dumps(t) for t in f['prepareFlushTests']),
+                                                     ', '.join(json.dumps(t) for t in f['cacheVerify']))
 
 
 def regenerate(repo, lean_dir):
